@@ -157,6 +157,13 @@ def run(chk):
     w_s = repo.where(pm, pbs)
     ctor = [c for c in ast.walk(pbs) if isinstance(c, ast.Call) and ast.unparse(c.func) == 'BoardSetting']
     loops = [l for l in ast.walk(pbs) if isinstance(l, ast.For)]
+    comps = [g for l in ast.walk(pbs) if isinstance(l, (ast.ListComp, ast.GeneratorExp)) for g in l.generators]
+    if len(ctor) == 1 and not loops and len(comps) == 1 and isinstance(comps[0].target, ast.Name):
+        # comprehension form: [BoardSetting(...) for game in self.parse_stream(fp)]
+        loops = [ast.For(target=comps[0].target, iter=comps[0].iter, body=[], orelse=[])]
+        comp_form = True
+    else:
+        comp_form = False
     if len(ctor) != 1 or len(loops) != 1 or not isinstance(loops[0].target, ast.Name):
         raise AnalysisError('C17.R5', 'PbnParser.parse_board_settings', 'unrecognised shape')
     x = loops[0].target.id
@@ -184,5 +191,5 @@ def run(chk):
                      {k.arg: subst(k.value, env) for k in ctor[0].keywords},
                      {k.arg: parse_annotation(ci.annots[k.arg]) for k in ctor[0].keywords if k.arg in ci.annots})
     app = [c for c in ast.walk(loops[0]) if isinstance(c, ast.Call) and isinstance(c.func, ast.Attribute) and c.func.attr == 'append']
-    chk.require(len(app) == 1 and ast.unparse(loops[0].iter).startswith('self.parse_stream('), 'C17.R5', w_s, 'PbnParser.parse_board_settings',
+    chk.require((len(app) == 1 or comp_form) and ast.unparse(loops[0].iter).startswith('self.parse_stream('), 'C17.R5', w_s, 'PbnParser.parse_board_settings',
                 'append per game in stream order', 'boards are appended in the order the games are read', 'boards are not appended once per game in stream order')
